@@ -28,6 +28,10 @@ CLAIMS = {
          "trusted: VerifPeek (read-only hook), bigcache single calls atomic, TLC; expiry/eviction are excluded by running with an unbounded cache inside the life window"),
  "C20": ("file", "fault_enumeration", "WalletFile.tla states what Decrypt + GOB decoding return for every file length, every changed byte position and every key class (AEAD axiom; the unchecked slice is a named deviation switch); TLC enumerates it at scaled region lengths, and the driver executes ALL concrete members on the real code - every truncation length 0..len, every single-byte position with several values, wrong keys, single key-bit flips, keys of invalid length, PEM round trip - with TLC judging each recorded outcome against the specification",
          "trusted: crypto/aes, cipher.GCM and encoding/gob behave as the AEAD axiom says; TLC"),
+ "C11": ("gossip", "model_checking", "TLC explores GossipNet.tla from every connected symmetric peer graph on 2, 3 and 4 nodes, every delivery order with duplicates, for a vertex, a vertex plus an awaiting transaction, and parent-linked vertices (admitted once, forwarded once, never sent to a verified gossiper, forwarded only after acceptance, termination, everybody reached - the last one modulo the TLA+ signature of known finding F13); TLC-simulated delivery orders are replayed on a virtual network of real gossipers (real ledgers, caches, flash memory, pipes; stub clients) and every delivery is judged by TLC against the specification's Receive / Pull / Retry",
+         "trusted: stub transport with deep-copied messages, quiescence detection from goroutine stacks, gossiper-list decoding in the driver, TLC; the 20 s flash window does not expire within a run"),
+ "C12": ("gossip", "model_checking", "as C11 with an adversarial relay at different positions that sends known items with lists assembled from garbage, its own key under other addresses, and honest entries lifted from other messages; TLC checks that only valid entries count (a node skips processing / is skipped only on its own valid signature for this item) and that every honest node with an honest path to the origin is reached; the forged lists are replayed against the real handlers and each delivery is judged by TLC",
+         "as C11; forged ITEMS (a hash announced with corrupted content, which poisons the flash memory) are outside this property's quantifier over lists - see DESIGN.md F14"),
 }
 NA = {
  "C19": "encode/decode fidelity of third-party codecs: no state, interleaving or case analysis in this repository to specify; a TLA+ model of encode-then-decode is the identity function (DESIGN.md section 8)",
@@ -47,6 +51,8 @@ m = {"version": 1, "setup_cmd": "./check setup",
          "serves_properties": ["C17"], "kind_free_text": "TLA+ specification of the cache operations at bigcache-call granularity; TLC; trace validation incl. gate-forced interleavings"},
         {"name": "file", "path": "specs/WalletFile.tla specs/WalletFileTrace.tla harness/cmd/drive/filedrv.go runner/filechk.py",
          "serves_properties": ["C20"], "kind_free_text": "TLA+ case analysis of reading the encrypted wallet file; every enumerated fault executed on the real code, outcomes judged by TLC"},
+        {"name": "gossip", "path": "specs/GossipNet.tla specs/GossipNetMC.tla specs/GossipNetGen.tla specs/GossipNetTrace.tla harness/cmd/drive/gossipdrv.go runner/gossipchk.py",
+         "serves_properties": ["C11", "C12"], "kind_free_text": "TLA+ specification of gossip about gossip incl. adversarial relays; TLC over all small topologies; replay on a virtual network of real gossipers; TLC trace validation"},
         {"name": "locks", "path": "specs/WalkLocks.tla specs/WalkLocksMC.tla specs/WalkLocksTrace.tla harness/cmd/drive/locks.go runner/locks.py",
          "serves_properties": ["C08"], "kind_free_text": "explicit TLA+ specification of locks, walker goroutines and channels; TLC safety + liveness; real-code fault enumeration judged by TLC"}],
      "checks": [], "not_applicable": [], "notes": "see DESIGN.md; known findings in known_findings.json"}
